@@ -658,7 +658,7 @@ func (v VersionVector) Compact() VersionVector {
 // AtomicVersionVector 提供原子操作的版本向量包装器
 // 用于需要在多个goroutine间安全更新版本向量的场景
 type AtomicVersionVector struct {
-	value atomic.Value // 存储 VersionVector
+	value atomic.Pointer[VersionVector] // 存储 *VersionVector（VersionVector 含 map/slice，不可比较，不能直接交给 atomic.Value 做 CAS）
 }
 
 // NewAtomicVersionVector 创建新的原子版本向量
@@ -667,30 +667,30 @@ func NewAtomicVersionVector(initial VersionVector) *AtomicVersionVector {
 	if initial.m == nil {
 		initial = NewVersionVector()
 	}
-	avv.value.Store(initial)
+	avv.value.Store(&initial)
 	return avv
 }
 
 // Load 原子加载当前版本向量
 func (avv *AtomicVersionVector) Load() VersionVector {
-	return avv.value.Load().(VersionVector)
+	return *avv.value.Load()
 }
 
 // Store 原子存储新版本向量
 func (avv *AtomicVersionVector) Store(v VersionVector) {
-	avv.value.Store(v)
+	avv.value.Store(&v)
 }
 
 // CompareAndSwap 原子比较并交换版本向量
 // 如果当前值等于old，则存储新值new
 // 返回是否成功交换
 func (avv *AtomicVersionVector) CompareAndSwap(old, new VersionVector) bool {
-	// 注意：这里使用了类型断言，确保类型正确
-	current := avv.value.Load().(VersionVector)
+	current := avv.value.Load()
 	if !current.Equal(old) {
 		return false
 	}
-	return avv.value.CompareAndSwap(old, new)
+	// 以加载到的指针为 CAS 的比较对象：期间若有其他写入（指针已更换）则失败，由调用方重试
+	return avv.value.CompareAndSwap(current, &new)
 }
 
 // Increment 原子递增指定节点的计数器
